@@ -63,6 +63,13 @@ def gen(ctx):
     maxlag = {'none': None, 'ratio': float(rng.choice([0.6, 0.8])), 'median': 'median',
               'abs_above': dmax * 1.5 + 1, 'abs_below': max(1.5, dmax * 0.7)}[str(ml)]
     binf = str(rng.choice(['even', 'even', 'uniform', 'kmeans', 'sturges'])) if sig != 'array' else 'even'
+    if sig != 'array' and rng.random() < 0.15:
+        # own lag edges with a repeated edge: a zero-width (always empty) class directly behind a populated one
+        e = sorted(float(x) for x in dmax * rng.uniform(0.08, 0.95, size=int(rng.integers(4, 8))))
+        k = int(rng.integers(1, len(e)))
+        e.insert(k, e[k - 1])
+        binf = e
+        maxlag = None
     return dict(coords=coords.tolist(), values=values.tolist(), model=model, method=method, n_lags=nl,
                 use_nugget=bool(rng.random() < 0.5), fit_sigma=sigma, kind=kind, maxlag=maxlag, bin_func=binf,
                 sigma_at_empty=empty_fill)
